@@ -119,7 +119,14 @@ func (fc *funcContext) translateStandaloneFunction(fun *ast.FuncDecl) []byte {
 	lvalue := fc.instName(fc.instance)
 
 	if fun.Body == nil {
-		return []byte(fmt.Sprintf("\t\t%s = %s;\n", lvalue, fc.unimplementedFunction(o)))
+		code := fmt.Sprintf("\t\t%s = %s;\n", lvalue, fc.unimplementedFunction(o))
+		if fun.Name.IsExported() && fc.instance.IsTrivial() {
+			// The implementation may be bound later by $initLinknames, which assigns the
+			// package-level variable. Forward through that variable, so that callers from
+			// other packages (which go through $pkg) reach the implementation too.
+			code += fmt.Sprintf("\t\t$pkg.%s = function() { return %s.apply(this, arguments); };\n", encodeIdent(fun.Name.Name), lvalue)
+		}
+		return []byte(code)
 	}
 
 	body := fc.translateFunctionBody(fun.Type, nil, fun.Body)
